@@ -7,7 +7,7 @@ Two implementations of the same select loop are bound to specs/ConcQueue/ConcQue
 
   lnd        github.com/lightningnetwork/lnd/queue v1.0.1 ConcurrentQueue: THE queue behind every block
              subscription (blockntfns/manager.go:29 ntfnQueue, :212 queue.NewConcurrentQueue(20)); driver compiled
-             into package blockntfns                                                    -> C11, C17
+             into package blockntfns                                                    -> C11
   chanutils  /repo/chanutils/queue.go ConcurrentQueue[T]: the queue inside chanutils.BatchWriter (its only user);
              has the extra closed-input exit (HasCloseIn)                               -> C17 (BatchWriter)
 
@@ -43,10 +43,12 @@ PARTIES = ("p", "c", "s")
 CLAUSES = ["FifoPrefix", "SendNeverBlocksWhileRunning", "NoneDropped", "NothingAfterStop", "StopReturns"]
 # C11: "in emission order with none dropped, however slowly the subscriber reads ... One subscriber's slowness ...
 # never delays ... another [the handler's send into a subscriber's queue completes] ... after cancellation or
-# shutdown ... nothing further is sent".  C17: Stop returns; for the BatchWriter's queue also the order / no-loss
-# clauses its own contract (items handed to PutItems in order, at most once) rests on.
-PROPS = {"C11": CLAUSES[:4], "C17": CLAUSES}
-VARIANTS = {"C11": ["lnd"], "C17": ["chanutils", "lnd"]}
+# shutdown its channel is closed [blockntfns closes it after ntfnQueue.Stop() returned] and nothing further is sent".
+# C17: Stop returns; for the BatchWriter's queue also the order / no-loss clauses its own contract (items handed to
+# PutItems in order, at most once) rests on.
+PROPS = {"C11": CLAUSES, "C17": CLAUSES}
+# which implementation a property rests on: block subscriptions use lnd/queue, BatchWriter uses chanutils
+VARIANTS = {"C11": ["lnd"], "C17": ["chanutils"]}
 
 CONFIGS = {
     "quick": dict(bufs=[0, 1, 3], MaxSend=8, walks=150, stall=150, depth=30),
@@ -194,6 +196,24 @@ def run_slice(prop_id, tier, seed, variants=None):
             "samples": samples, "assumptions": ASSUMPTIONS,
         }
         return rc, cov
+    finally:
+        shutil.rmtree(sc, ignore_errors=True)
+
+
+def is_my_replay(replay_file):
+    try:
+        return json.load(open(replay_file)).get("slice") == "concqueue"
+    except Exception:
+        return False
+
+
+def run_replay(prop_id, replay_file):
+    """Re-executes a saved violation of this slice on the working tree (bin/vcheck <id> --replay <file>)."""
+    variant = json.load(open(replay_file)).get("implementation", "lnd")
+    sc = core.scratch("cq")
+    try:
+        return settled.replay_saved([SPEC], "ConcQueueProps", PROPS[prop_id], prop_id, build(variant, sc),
+                                    "TestVerifConcQueueReplay", replay_file, label)
     finally:
         shutil.rmtree(sc, ignore_errors=True)
 
